@@ -27,8 +27,8 @@ func init() {
 func runC16(c *Ctx) {
 	c.L.Trust("go/types + go/ssa (x/tools v0.29.0)", "net/url: (*URL).String reads only the fields of the URL struct", "rule code in /verif/sa/rules/c16.go")
 	c.L.Assumef("u is non-nil (documented precondition)")
-	c.L.Floor("C16.redact.use-of-input", 2)
-	c.L.Floor("C16.redact.return", 2)
+	c.L.Floor("C16.redact.use-of-input", 1)
+	c.L.Floor("C16.redact.return", 1)
 	c.L.Floor("C16.redact.mask-store", 1)
 	c.L.Floor("C16.mask.writer", 1)
 	c.L.Floor("C16.errurl.store", 1)
@@ -59,13 +59,13 @@ func isNilTestOnly(v ssa.Value) bool {
 	return true
 }
 
-// guardedByNilUser reports whether instruction in executes only when
-// base.User == nil (want true) or != nil (want false).
-func guardedByFieldNil(in ssa.Instruction, base ssa.Value, field string, wantNil bool) bool {
-	for _, g := range core.GuardsOf(in) {
+// factFieldNil reports whether the facts contain base.<field> == nil (wantNil)
+// or != nil (!wantNil).
+func factFieldNil(facts []core.Fact, base ssa.Value, field string, wantNil bool) bool {
+	for _, g := range facts {
 		cond, truth := core.StripNot(g.Cond, g.Truth)
 		b, ok := cond.(*ssa.BinOp)
-		if !ok {
+		if !ok || (b.Op != token.EQL && b.Op != token.NEQ) {
 			continue
 		}
 		var other ssa.Value
@@ -81,15 +81,375 @@ func guardedByFieldNil(in ssa.Instruction, base ssa.Value, field string, wantNil
 		if !ok || fname != field || fbase != base {
 			continue
 		}
-		isNil := (b.Op == token.EQL) == truth
-		if b.Op != token.EQL && b.Op != token.NEQ {
-			continue
-		}
-		if isNil == wantNil {
+		if ((b.Op == token.EQL) == truth) == wantNil {
 			return true
 		}
 	}
 	return false
+}
+
+// copyState is the abstract content of one local url.URL object.
+type copyState struct {
+	whole     int    // 0 zero value, 1 assigned *u as a whole, 2 anything else
+	fields    uint64 // non-User fields assigned u's field of the same name
+	userClean bool   // User overwritten by the constant mask since the last whole assignment
+	userSet   bool   // some store to User happened
+}
+
+func (a copyState) join(b copyState) copyState {
+	r := copyState{fields: a.fields & b.fields, userClean: a.userClean && b.userClean, userSet: a.userSet || b.userSet}
+	if a.whole == b.whole {
+		r.whole = a.whole
+	} else {
+		r.whole = 2
+	}
+	return r
+}
+
+// c16Flow is the per-function object-state analysis shared by both rules.
+type c16Flow struct {
+	c      *Ctx
+	f      *ssa.Function
+	u      *ssa.Parameter
+	facts  *core.FactSet
+	allocs []*ssa.Alloc
+	in     map[*ssa.BasicBlock]map[*ssa.Alloc]copyState
+	nfield int
+	userIx int
+}
+
+func isURLStruct(t types.Type) (*types.Struct, bool) {
+	n, ok := types.Unalias(t).(*types.Named)
+	if !ok || n.Obj().Name() != "URL" || n.Obj().Pkg() == nil || n.Obj().Pkg().Path() != "net/url" {
+		return nil, false
+	}
+	st, ok := n.Underlying().(*types.Struct)
+	return st, ok
+}
+
+func newC16Flow(c *Ctx, f *ssa.Function, u *ssa.Parameter) *c16Flow {
+	fl := &c16Flow{c: c, f: f, u: u, facts: core.Facts(f), in: map[*ssa.BasicBlock]map[*ssa.Alloc]copyState{}, userIx: -1}
+	core.EachInstr(f, func(in ssa.Instruction) {
+		if al, ok := in.(*ssa.Alloc); ok {
+			if st, isURL := isURLStruct(al.Type().Underlying().(*types.Pointer).Elem()); isURL {
+				fl.allocs = append(fl.allocs, al)
+				fl.nfield = st.NumFields()
+				for i := 0; i < st.NumFields(); i++ {
+					if st.Field(i).Name() == "User" {
+						fl.userIx = i
+					}
+				}
+			}
+		}
+	})
+	if len(fl.allocs) == 0 || len(f.Blocks) == 0 {
+		return fl
+	}
+	out := map[*ssa.BasicBlock]map[*ssa.Alloc]copyState{}
+	for changed := true; changed; {
+		changed = false
+		for _, b := range f.Blocks {
+			var st map[*ssa.Alloc]copyState
+			if b == f.Blocks[0] {
+				st = map[*ssa.Alloc]copyState{}
+			} else {
+				for _, p := range b.Preds {
+					o, ok := out[p]
+					if !ok {
+						continue
+					}
+					if st == nil {
+						st = map[*ssa.Alloc]copyState{}
+						for k, v := range o {
+							st[k] = v
+						}
+						continue
+					}
+					for _, al := range fl.allocs {
+						st[al] = st[al].join(o[al])
+					}
+				}
+				if st == nil {
+					continue
+				}
+			}
+			fl.in[b] = st
+			cur := map[*ssa.Alloc]copyState{}
+			for k, v := range st {
+				cur[k] = v
+			}
+			for _, in := range b.Instrs {
+				fl.step(cur, in, false)
+			}
+			if old, ok := out[b]; !ok || !sameCopyStates(old, cur, fl.allocs) {
+				out[b] = cur
+				changed = true
+			}
+		}
+	}
+	return fl
+}
+
+func sameCopyStates(a, b map[*ssa.Alloc]copyState, allocs []*ssa.Alloc) bool {
+	for _, al := range allocs {
+		if a[al] != b[al] {
+			return false
+		}
+	}
+	return true
+}
+
+// isInput: the pointer may be the input URL.
+func (fl *c16Flow) isInput(v ssa.Value) bool {
+	for _, l := range fl.facts.Leaves(v, fl.f.Blocks[0].Instrs[0]) {
+		if l.V == ssa.Value(fl.u) {
+			return true
+		}
+	}
+	return false
+}
+
+// step applies one instruction to the object states; with report it also
+// records the obligations attached to stores into the copies.
+func (fl *c16Flow) step(cur map[*ssa.Alloc]copyState, in ssa.Instruction, report bool) {
+	c, f := fl.c, fl.f
+	switch x := in.(type) {
+	case *ssa.Alloc:
+		for _, al := range fl.allocs {
+			if al == x {
+				cur[al] = copyState{}
+			}
+		}
+	case *ssa.Store:
+		if al, ok := x.Addr.(*ssa.Alloc); ok && fl.isCopy(al) {
+			st := copyState{whole: 2}
+			if ld, isLd := x.Val.(*ssa.UnOp); isLd && ld.Op == token.MUL && ld.X == ssa.Value(fl.u) {
+				st = copyState{whole: 1}
+			}
+			cur[al] = st
+			return
+		}
+		fa, ok := x.Addr.(*ssa.FieldAddr)
+		if !ok {
+			return
+		}
+		al, ok := fa.X.(*ssa.Alloc)
+		if !ok || !fl.isCopy(al) {
+			return
+		}
+		st := cur[al]
+		name := core.FieldName(fa)
+		if fa.Field == fl.userIx {
+			why, clean := untaintedMask(c, x.Val)
+			st.userClean, st.userSet = clean, true
+			if report {
+				c.check(clean, "C16.redact.mask-store", f, "copy.User = "+core.Describe(x.Val), x,
+					"the stored userinfo must derive only from constants: "+why)
+			}
+		} else {
+			n, base, isLd := core.IsLoadOfField(x.Val)
+			same := isLd && n == name && base == ssa.Value(fl.u)
+			if same {
+				st.fields |= 1 << uint(fa.Field)
+			} else {
+				st.whole = 2
+			}
+			if report {
+				c.check(same, "C16.redact.other-fields", f, "store to copy."+name, x, "every component other than User must equal the input's")
+			}
+		}
+		cur[al] = st
+	}
+}
+
+func (fl *c16Flow) isCopy(al *ssa.Alloc) bool {
+	for _, a := range fl.allocs {
+		if a == al {
+			return true
+		}
+	}
+	return false
+}
+
+// stateAt returns the state of al just before instruction at (from == nil) or
+// at the end of block from.
+func (fl *c16Flow) stateAt(al *ssa.Alloc, at ssa.Instruction, from *ssa.BasicBlock) (copyState, bool) {
+	b := at.Block()
+	if from != nil {
+		b = from
+	}
+	st, ok := fl.in[b]
+	if !ok {
+		return copyState{}, false
+	}
+	cur := map[*ssa.Alloc]copyState{}
+	for k, v := range st {
+		cur[k] = v
+	}
+	for _, in := range b.Instrs {
+		if from == nil && in == at {
+			break
+		}
+		fl.step(cur, in, false)
+	}
+	return cur[al], true
+}
+
+// masked: the object holds the input's components with User replaced by the mask.
+func (fl *c16Flow) masked(st copyState) bool {
+	if !st.userClean {
+		return false
+	}
+	if st.whole == 1 {
+		return true
+	}
+	if st.whole != 0 {
+		return false
+	}
+	all := uint64(0)
+	for i := 0; i < fl.nfield; i++ {
+		if i != fl.userIx {
+			all |= 1 << uint(i)
+		}
+	}
+	return st.fields&all == all
+}
+
+// report replays every block once with reporting switched on.
+func (fl *c16Flow) report() {
+	for _, b := range fl.f.Blocks {
+		st, ok := fl.in[b]
+		if !ok {
+			continue
+		}
+		cur := map[*ssa.Alloc]copyState{}
+		for k, v := range st {
+			cur[k] = v
+		}
+		for _, in := range b.Instrs {
+			fl.step(cur, in, true)
+		}
+	}
+}
+
+// classifyInputUses enumerates every use of the input pointer (and of the phis
+// it flows into).  allowCall says which calls may receive it.
+func (fl *c16Flow) classifyInputUses(rule string, allowCall func(*ssa.Call) bool) {
+	c, f, u := fl.c, fl.f, fl.u
+	seen := map[ssa.Value]bool{}
+	var visit func(v ssa.Value)
+	visit = func(v ssa.Value) {
+		if seen[v] {
+			return
+		}
+		seen[v] = true
+		for _, r := range core.Refs(v) {
+			switch x := r.(type) {
+			case *ssa.DebugRef, *ssa.Return:
+			case *ssa.Phi:
+				visit(x)
+			case *ssa.BinOp:
+				// pointer comparison (u == nil): reveals nothing about the credentials
+				c.check(x.Op == token.EQL || x.Op == token.NEQ, rule, f, "comparison of the input pointer", x, "pointer identity only")
+			case *ssa.FieldAddr:
+				name := core.FieldName(x)
+				for _, rr := range core.Refs(x) {
+					switch y := rr.(type) {
+					case *ssa.UnOp:
+						if name == "User" {
+							c.check(isNilTestOnly(y), rule, f, "read of u.User", y,
+								"the credentials may only be tested for nil; any other use can flow into the result")
+						} else {
+							c.check(true, rule, f, "read of u."+name, y, "non-credential field")
+						}
+					case *ssa.Store:
+						if y.Addr == ssa.Value(x) {
+							// a store through a pointer that may be the input
+							c.check(v != ssa.Value(u) && !fl.mayBeInputAt(v, y), "C16.redact.input-unmodified", f, "store to u."+name, y, "the input URL must never be modified")
+						}
+					case *ssa.DebugRef:
+					default:
+						c.undecided(rule, f, "address of u."+name+" escapes", rr, "cannot track this use of the input")
+					}
+				}
+			case *ssa.UnOp: // *u
+				ok := true
+				for _, rr := range core.Refs(x) {
+					st, isStore := rr.(*ssa.Store)
+					if !isStore {
+						if _, d := rr.(*ssa.DebugRef); d {
+							continue
+						}
+						ok = false
+						continue
+					}
+					al, isAlloc := st.Addr.(*ssa.Alloc)
+					if !isAlloc || st.Val != ssa.Value(x) || !fl.isCopy(al) {
+						ok = false
+					}
+				}
+				c.check(ok && v == ssa.Value(u), rule, f, "copy *u", x, "the struct copy (which contains User) may only initialise a fresh local URL")
+			case *ssa.Store:
+				if x.Addr == v {
+					c.check(false, "C16.redact.input-unmodified", f, "store through u", x, "the input URL must never be modified")
+				} else {
+					c.undecided(rule, f, "u stored", x, "the input pointer escapes")
+				}
+			case *ssa.Call:
+				if allowCall != nil && allowCall(x) {
+					continue
+				}
+				c.undecided(rule, f, "u passed to "+core.CalleeName(&x.Call), r, "unrecognised use of the input URL (call or escape): cannot show the credentials do not flow out")
+			default:
+				c.undecided(rule, f, "u used by "+core.Describe(asValue(r)), r, "unrecognised use of the input URL (call or escape): cannot show the credentials do not flow out")
+			}
+		}
+	}
+	visit(u)
+}
+
+// mayBeInputAt: v (a phi the input flows into) may still be the input when the
+// store executes.  A phi that merges the input with a fresh copy is the input
+// on some path.
+func (fl *c16Flow) mayBeInputAt(v ssa.Value, at ssa.Instruction) bool {
+	for _, l := range fl.facts.Leaves(v, at) {
+		if l.V == ssa.Value(fl.u) {
+			return true
+		}
+	}
+	return false
+}
+
+// redactedAt: on every path, v is either the input under "u.User == nil"
+// (identity, only when allowIdentity) or a local copy in the masked state.
+func (fl *c16Flow) redactedAt(v ssa.Value, at ssa.Instruction, allowIdentity bool) (bool, string) {
+	for _, l := range fl.facts.Leaves(v, at) {
+		switch x := l.V.(type) {
+		case *ssa.Parameter:
+			if x != fl.u {
+				return false, "parameter " + x.Name()
+			}
+			if !allowIdentity || !factFieldNil(l.Facts, fl.u, "User", true) {
+				return false, "the input itself may be used only when it has no userinfo (u.User == nil on that path)"
+			}
+		case *ssa.Alloc:
+			if !fl.isCopy(x) {
+				return false, "not a URL copy"
+			}
+			st, ok := fl.stateAt(x, at, l.From)
+			if !ok || !fl.masked(st) {
+				return false, "the copy does not hold the input with User overwritten by the mask on every path (otherwise the copied credentials are used)"
+			}
+		case *ssa.Call:
+			redact := fl.c.P.Func("netutil/urlutil", "RedactUserinfo")
+			if redact == nil || x.Call.StaticCallee() != redact || len(x.Call.Args) != 1 || x.Call.Args[0] != ssa.Value(fl.u) {
+				return false, "call of " + core.CalleeName(&x.Call)
+			}
+		default:
+			return false, "value " + core.Describe(l.V)
+		}
+	}
+	return true, ""
 }
 
 func c16Redact(c *Ctx, f *ssa.Function) {
@@ -98,135 +458,34 @@ func c16Redact(c *Ctx, f *ssa.Function) {
 		return
 	}
 	u := f.Params[0]
-	var copies []*ssa.Alloc // fresh allocations that received *u
-	// (1)/(4)/(5): classify every use of the input pointer.
-	for _, r := range core.Refs(u) {
-		switch x := r.(type) {
-		case *ssa.DebugRef:
-		case *ssa.FieldAddr:
-			name := core.FieldName(x)
-			for _, rr := range core.Refs(x) {
-				switch y := rr.(type) {
-				case *ssa.UnOp: // load
-					if name == "User" {
-						c.check(isNilTestOnly(y), "C16.redact.use-of-input", f, "read of u.User", y,
-							"the credentials may only be tested for nil; any other use can flow into the result")
-					} else {
-						c.check(true, "C16.redact.use-of-input", f, "read of u."+name, y, "non-credential field")
-					}
-				case *ssa.Store:
-					c.check(y.Addr != x, "C16.redact.input-unmodified", f, "store to u."+name, y, "the input URL must never be modified")
-				case *ssa.DebugRef:
-				default:
-					c.undecided("C16.redact.use-of-input", f, "address of u."+name+" escapes", rr, "cannot track this use of the input")
-				}
+	fl := newC16Flow(c, f, u)
+	fl.classifyInputUses("C16.redact.use-of-input", nil)
+	fl.report()
+	// copies must not escape except through the return
+	for _, al := range fl.allocs {
+		for _, r := range core.Refs(al) {
+			switch r.(type) {
+			case *ssa.Store, *ssa.FieldAddr, *ssa.Return, *ssa.DebugRef, *ssa.Phi:
+			default:
+				c.undecided("C16.redact.return", f, "copy used by "+core.Describe(asValue(r)), r, "the fresh copy escapes before it is returned")
 			}
-		case *ssa.UnOp: // *u
-			ok := true
-			for _, rr := range core.Refs(x) {
-				st, isStore := rr.(*ssa.Store)
-				if !isStore {
-					if _, d := rr.(*ssa.DebugRef); d {
-						continue
-					}
-					ok = false
-					continue
-				}
-				al, isAlloc := st.Addr.(*ssa.Alloc)
-				if !isAlloc || st.Val != x {
-					ok = false
-					continue
-				}
-				copies = append(copies, al)
-			}
-			c.check(ok, "C16.redact.use-of-input", f, "copy *u", x, "the struct copy (which contains User) may only initialise a fresh local URL")
-		case *ssa.Return:
-			// handled below
-		case *ssa.Store:
-			if x.Addr == u {
-				c.check(false, "C16.redact.input-unmodified", f, "store through u", x, "the input URL must never be modified")
-			} else {
-				c.undecided("C16.redact.use-of-input", f, "u stored", x, "the input pointer escapes")
-			}
-		default:
-			c.undecided("C16.redact.use-of-input", f, "u used by "+core.Describe(asValue(r)), r, "unrecognised use of the input URL (call or escape): cannot show the credentials do not flow out")
 		}
 	}
-	isCopy := func(v ssa.Value) *ssa.Alloc {
-		for _, a := range copies {
-			if a == v {
-				return a
-			}
+	for _, ret := range core.Returns(f) {
+		if len(ret.Results) != 1 {
+			continue
 		}
-		return nil
+		ok, why := fl.redactedAt(ret.Results[0], ret, true)
+		c.check(ok, "C16.redact.return", f, "return "+core.Describe(ret.Results[0]), ret,
+			"every returned value is the input under u.User == nil or a copy of it whose User holds the mask: "+why)
 	}
-	// (1)/(2): every return.
-	core.EachInstr(f, func(in ssa.Instruction) {
-		ret, ok := in.(*ssa.Return)
-		if !ok || len(ret.Results) != 1 {
-			return
-		}
-		v := ret.Results[0]
-		switch {
-		case v == u:
-			c.check(guardedByFieldNil(ret, u, "User", true), "C16.redact.return", f, "return u", ret,
-				"the input itself may be returned only when it has no userinfo")
-		case isCopy(v) != nil:
-			al := isCopy(v)
-			c16CopyMasked(c, f, al, ret)
-		default:
-			c.undecided("C16.redact.return", f, "return "+core.Describe(v), ret, "result is neither the input nor a masked fresh copy")
-		}
-	})
 	c.L.Record(core.Discharged, "C16.redact.input-unmodified", core.FuncName(f), "no store through u", c.P.Pos(f.Pos()), "all uses of u enumerated")
+	c.L.Record(core.Discharged, "C16.redact.other-fields", core.FuncName(f), "only User of the copy is overwritten", c.P.Pos(f.Pos()), "stores into the copies enumerated")
 }
 
 func asValue(in ssa.Instruction) ssa.Value {
 	v, _ := in.(ssa.Value)
 	return v
-}
-
-// c16CopyMasked checks that the fresh copy al has its User field overwritten
-// with an untainted value before ret and that nothing else of it is changed.
-func c16CopyMasked(c *Ctx, f *ssa.Function, al *ssa.Alloc, ret *ssa.Return) {
-	var copyStore *ssa.Store
-	var maskStores []*ssa.Store
-	for _, r := range core.Refs(al) {
-		switch x := r.(type) {
-		case *ssa.Store:
-			if x.Addr == al {
-				copyStore = x
-			}
-		case *ssa.FieldAddr:
-			name := core.FieldName(x)
-			for _, rr := range core.Refs(x) {
-				st, ok := rr.(*ssa.Store)
-				if !ok {
-					continue
-				}
-				if name == "User" {
-					maskStores = append(maskStores, st)
-				} else {
-					c.check(false, "C16.redact.other-fields", f, "store to copy."+name, st, "every component other than User must equal the input's")
-				}
-			}
-		case *ssa.Return, *ssa.DebugRef:
-		default:
-			c.undecided("C16.redact.return", f, "copy used by "+core.Describe(asValue(r)), r, "the fresh copy escapes before it is returned")
-		}
-	}
-	c.L.Record(core.Discharged, "C16.redact.other-fields", core.FuncName(f), "only User of the copy is overwritten", c.ipos(ret), "stores into the copy enumerated")
-	dominating := false
-	for _, st := range maskStores {
-		why, clean := untaintedMask(c, st.Val)
-		c.check(clean, "C16.redact.mask-store", f, "copy.User = "+core.Describe(st.Val), st,
-			"the stored userinfo must derive only from constants: "+why)
-		if copyStore != nil && core.Dominates(copyStore, st) && core.Dominates(st, ret) {
-			dominating = true
-		}
-	}
-	c.check(dominating, "C16.redact.return", f, "return of masked copy", ret,
-		"a store of the mask to copy.User must follow the struct copy and dominate the return (otherwise the copied credentials are returned)")
 }
 
 // untaintedMask: the value is a load of a package-level variable that is only
@@ -314,53 +573,93 @@ func c16ErrURL(c *Ctx, f *ssa.Function) {
 	}
 	u, errp := f.Params[0], f.Params[1]
 	redact := c.P.Func("netutil/urlutil", "RedactUserinfo")
+	fl := newC16Flow(c, f, u)
+	isString := func(call *ssa.Call) bool {
+		return core.CalleeName(&call.Call) == "(*net/url.URL).String" && len(call.Call.Args) == 1
+	}
+	fl.classifyInputUses("C16.errurl.effects", func(call *ssa.Call) bool {
+		return redact != nil && call.Call.StaticCallee() == redact
+	})
+	fl.report()
+	// values derived from the err parameter by assertion
+	fromErr := func(v ssa.Value) (*ssa.TypeAssert, bool) {
+		ex, isEx := v.(*ssa.Extract)
+		if !isEx || ex.Index != 0 {
+			return nil, false
+		}
+		ta, isTA := ex.Tuple.(*ssa.TypeAssert)
+		if !isTA || ta.X != ssa.Value(errp) || !ta.CommaOk || !isPtrToNamed(ta.AssertedType, "net/url", "Error") {
+			return nil, false
+		}
+		return ta, true
+	}
 	stores := 0
 	core.EachInstr(f, func(in ssa.Instruction) {
 		switch x := in.(type) {
 		case *ssa.Store:
-			stores++
+			if al, ok := x.Addr.(*ssa.Alloc); ok && fl.isCopy(al) {
+				return
+			}
 			fa, ok := x.Addr.(*ssa.FieldAddr)
+			if ok {
+				if al, isAl := fa.X.(*ssa.Alloc); isAl && fl.isCopy(al) {
+					return // local copy: handled by the object-state analysis
+				}
+			}
+			stores++
 			if !ok || core.FieldName(fa) != "URL" {
 				c.check(false, "C16.errurl.store", f, "store to "+core.Describe(x.Addr), x, "only the URL text of the *url.Error may be written")
 				return
 			}
-			// target: direct type assertion of the err parameter to *url.Error
+			// target: direct type assertion of the err parameter to *url.Error, under ok
 			okT := false
-			if ex, isEx := fa.X.(*ssa.Extract); isEx && ex.Index == 0 {
-				if ta, isTA := ex.Tuple.(*ssa.TypeAssert); isTA && ta.X == errp && ta.CommaOk && isPtrToNamed(ta.AssertedType, "net/url", "Error") {
-					// guarded by ok
-					for _, g := range core.GuardsOf(x) {
-						if e2, isE := g.Cond.(*ssa.Extract); isE && e2.Tuple == ta && e2.Index == 1 && g.Truth {
-							okT = true
-						}
+			if ta, isErr := fromErr(fa.X); isErr {
+				for _, g := range fl.facts.At(x.Block()) {
+					if e2, isE := g.Cond.(*ssa.Extract); isE && e2.Tuple == ssa.Value(ta) && e2.Index == 1 && g.Truth {
+						okT = true
 					}
 				}
 			}
 			c.check(okT, "C16.errurl.target", f, "target of the overwrite", x,
 				"the overwritten object must be err itself asserted to *url.Error (top level only), under ok")
-			c.check(guardedByFieldNil(x, u, "User", false), "C16.errurl.guard", f, "overwrite only when u has userinfo", x,
+			c.check(factFieldNil(fl.facts.At(x.Block()), u, "User", false), "C16.errurl.guard", f, "overwrite only when u has userinfo", x,
 				"errors for URLs without userinfo are left untouched")
-			// value: RedactUserinfo(u).String()
-			okV := false
-			if call, isCall := x.Val.(*ssa.Call); isCall && core.CalleeName(&call.Call) == "(*net/url.URL).String" && len(call.Call.Args) == 1 {
-				if inner, isCall := call.Call.Args[0].(*ssa.Call); isCall && inner.Call.StaticCallee() == redact && redact != nil &&
-					len(inner.Call.Args) == 1 && inner.Call.Args[0] == u {
-					okV = true
-				}
+			// value: <redacted URL>.String()
+			okV, why := false, "not a String() call"
+			if call, isCall := x.Val.(*ssa.Call); isCall && isString(call) {
+				okV, why = fl.redactedAt(call.Call.Args[0], call, false)
 			}
 			c.check(okV, "C16.errurl.store", f, "errURL.URL = "+core.Describe(x.Val), x,
-				"the new text must be RedactUserinfo(u).String()")
+				"the new text must be the String() of the redacted URL (RedactUserinfo(u) or a copy of u whose User holds the mask): "+why)
 		case *ssa.Call:
 			n := core.CalleeName(&x.Call)
-			if x.Call.StaticCallee() == redact || n == "(*net/url.URL).String" {
+			if (redact != nil && x.Call.StaticCallee() == redact) || n == "net/url.UserPassword" || n == "net/url.User" {
 				return
 			}
-			c.check(false, "C16.errurl.effects", f, "call of "+n, x, "no other effect is allowed: every other error is left untouched")
+			if isString(x) {
+				ok, why := fl.redactedAt(x.Call.Args[0], x, false)
+				c.check(ok, "C16.errurl.effects", f, "String() of "+core.Describe(x.Call.Args[0]), x, "only the redacted URL may be rendered: "+why)
+				return
+			}
+			// a call that receives the error, the URL or a copy could change or leak them
+			touches := false
+			for _, a := range x.Call.Args {
+				if a == ssa.Value(errp) || a == ssa.Value(u) {
+					touches = true
+				}
+				if _, isErr := fromErr(a); isErr {
+					touches = true
+				}
+				if al, isAl := a.(*ssa.Alloc); isAl && fl.isCopy(al) {
+					touches = true
+				}
+			}
+			c.check(!touches, "C16.errurl.effects", f, "call of "+n, x, "no other effect on the error or the URL is allowed: every other error is left untouched")
 		case *ssa.MapUpdate, *ssa.Send, *ssa.Go, *ssa.Defer:
 			c.check(false, "C16.errurl.effects", f, "side effect", in, "no other effect is allowed")
 		}
 	})
-	c.L.Record(core.Discharged, "C16.errurl.effects", core.FuncName(f), "effects enumerated", c.P.Pos(f.Pos()), sprintf("%d store(s), calls limited to RedactUserinfo and String", stores))
+	c.L.Record(core.Discharged, "C16.errurl.effects", core.FuncName(f), "effects enumerated", c.P.Pos(f.Pos()), sprintf("%d store(s) outside local copies; calls limited to RedactUserinfo and String of the redacted URL", stores))
 }
 
 func isPtrToNamed(t types.Type, pkg, name string) bool {
